@@ -26,6 +26,7 @@ func checkC11(c *Ctx) {
 	c.useRules(ruleP11, ruleP2, ruleP8, ruleP6, ruleP5)
 	c.useRules(ruleP6)
 	c.connackCodeReachesAccept()
+	c.sessionSetupRefusesNothing()
 	r := c.Roles()
 	if !c.Need("accept function (Server method calling Authenticate)", r.Accept, "start", r.Start, "socket writer", r.SockWrite) {
 		return
